@@ -150,7 +150,9 @@ impl ClientConnection {
             path,
             version.clone(),
             headers,
-            *self.remote_addr.as_ref().unwrap(),
+            // the kernel may be unable to name the peer (e.g. ENOTCONN when the client has
+            // already reset the connection): the request is then delivered without an address
+            self.remote_addr.as_ref().ok().copied().flatten(),
             data_source,
             writer,
         )
